@@ -65,72 +65,6 @@ theorem smutex_owner {n : Nat} {s : State} (h : ReachableU n s) {sid : SessId} {
   simp only [SHold] at this
   grind
 
-/-- `mutex_holder_enabled` (unshared sessions): the holder of `e.mutex` always has an enabled step -/
-theorem holder_progress {n : Nat} {s : State} {a : ActorId} (h : ReachableU n s)
-    (hm : s.eng.mutex = some a) : ∃ c, (c = .go ∨ c = .storeOk) ∧ (step s a c).isSome = true := by
-  obtain ⟨i, j⟩ := inv_reachable h.reachable
-  have he := (i.mutex_iff a).1 hm
-  have hle : ¬ a > s.n := by
-    intro hgt
-    have := j.rng a hgt
-    simp [EHold, this] at he
-  have lw := j.lwf a
-  simp only [LWf] at lw
-  have u := uinv_reachable h a
-  have key : ∀ c, (c = .go ∨ c = .storeOk) → (step s a c).isSome = true →
-      ∃ c, (c = .go ∨ c = .storeOk) ∧ (step s a c).isSome = true := by
-    intro c hc hs
-    exact ⟨c, hc, hs⟩
-  simp only [EHold] at he
-  rcases he with hp | hp | hp | hp | hp | hp | hp | hp | hp
-  · apply key .go (Or.inl rfl)
-    simp only [step, hle, if_false, hp, stepBegin]
-    split <;> (try split) <;> (try split) <;> simp
-  · -- bSessLock: wants s.mutex of ctxSess = own session, which nobody else can hold
-    apply key .go (Or.inl rfl)
-    have hc := lw.2.1 (Or.inl hp)
-    obtain ⟨sid, hsid⟩ := Option.isSome_iff_exists.mp hc
-    have hsa : sid = a := u.1 sid hsid
-    have hfree : (s.sess sid).mutex = none := by
-      cases hmx : (s.sess sid).mutex with
-      | none => rfl
-      | some b =>
-        have hb : b = sid := smutex_owner h hmx
-        have := (i.smutex_iff b sid).1 hmx
-        simp only [SHold] at this
-        subst hb; subst hsa
-        simp [hp] at this
-    simp [step, hle, hp, stepBegin, hsid, hfree]
-  · apply key .go (Or.inl rfl)
-    have hc := lw.2.1 (Or.inr (Or.inl hp))
-    obtain ⟨sid, hsid⟩ := Option.isSome_iff_exists.mp hc
-    simp only [step, hle, if_false, hp, stepBegin, hsid]
-    split <;> simp
-  · apply key .go (Or.inl rfl)
-    simp only [step, hle, if_false, hp, stepBegin]
-    split <;> (try split) <;> (try split) <;> simp
-  · apply key .go (Or.inl rfl)
-    simp only [step, hle, if_false, hp, stepCommit]
-    split <;> (try split) <;> (try split) <;> (try split) <;> simp
-  · apply key .storeOk (Or.inr rfl)
-    have hc := lw.2.2.1 (Or.inl hp)
-    obtain ⟨t, ht⟩ := Option.isSome_iff_exists.mp hc
-    simp [step, hle, hp, stepCommit, ht]
-  · apply key .go (Or.inl rfl)
-    simp only [step, hle, if_false, hp, stepAbort]
-    split <;> (try split) <;> simp
-  · apply key .go (Or.inl rfl)
-    simp only [step, hle, if_false, hp, stepClose]
-    split <;> simp
-  · apply key .go (Or.inl rfl)
-    simp only [step, hle, if_false, hp, stepClose]
-    split <;> (try split) <;> simp
-
-theorem mutex_holder_enabled_aux {n : Nat} {s : State} {a : ActorId} (h : ReachableU n s)
-    (hm : s.eng.mutex = some a) : ∃ c s', step s a c = some s' := by
-  obtain ⟨c, _, hc⟩ := holder_progress h hm
-  exact ⟨c, Option.isSome_iff_exists.mp hc⟩
-
 /-- with unshared sessions, an actor's own session mutex is free unless it holds it itself -/
 theorem own_smutex_free {n : Nat} {s : State} {a : ActorId} (h : ReachableU n s)
     (hn : ¬ SHold (s.loc a) a) : (s.sess a).mutex = none := by
